@@ -277,6 +277,12 @@
            ! fudge factor of -0.5 for agreement with single sphere case
            asreshape = reshape(cshift(ascatmat, shift = 1), (/ 2, 2 /), &
                 order = (/ 2, 1 /)) * (-0.5)
+           ! SCSMFO refers the perpendicular components of the incident and
+           ! the scattered field to the opposite unit vector: in the Bohren
+           ! & Huffman convention of calc_scat_field the off-diagonal
+           ! elements (which vanish for a single sphere) change sign
+           asreshape(1, 2) = -asreshape(1, 2)
+           asreshape(2, 1) = -asreshape(2, 1)
 
            ! calculate scattered fields in spherical coordinates
            call calc_scat_field(kr, phi, asreshape, inc_pol, escat_sph)
